@@ -126,7 +126,8 @@ theorem sorted_drop_rows (s : DropSet) :
 /-- C06.V8  The dispatch tables of the model are those of the live package: for every type of
 value, `find_nulls` / `drop_rows` of the model report "no implementation" exactly when the
 `singledispatch` registry of the installed `formulaic.utils.null_handling` has no overload for it
-(`Gen/NullTables.lean`, regenerated on every check). -/
+(`Gen/NullTables.lean`, regenerated on every check). pandas' own 1-d arrays (`Categorical`, any
+`ExtensionArray`, `Index`) are `Value.array1` in the model: they have overloads of both functions. -/
 theorem dispatch_tables_match_package :
     let samples : List (String × Value Unit) := [
       ("none", .none), ("str", .scalar .pyStr ⟨(), false⟩), ("int", .scalar .pyNum ⟨(), false⟩),
@@ -135,7 +136,9 @@ theorem dispatch_tables_match_package :
       ("np_int64", .scalar .npNum ⟨(), false⟩), ("np_bool", .scalar .npNum ⟨(), false⟩),
       ("pd_na", .scalar .npNum ⟨(), true⟩), ("pd_nat", .scalar .npNum ⟨(), true⟩),
       ("list", .pylist []), ("dict", .dict []), ("nw_series", .nwSeries []), ("pd_series", .series []),
-      ("pd_frame", .frame 0 []), ("ndarray", .array1 []), ("csc", .sparse true 0 []),
+      ("pd_frame", .frame 0 []), ("ndarray", .array1 []),
+      ("pd_categorical", .array1 []), ("pd_extension_array", .array1 []), ("pd_masked_array", .array1 []),
+      ("pd_index", .array1 []), ("csc", .sparse true 0 []),
       ("csr", .sparse false 0 []), ("tuple", .other), ("object", .other)]
     FormulaicVerif.Gen.findNullsRegistered = samples.map (fun p =>
       (p.1, match findNulls current p.2 with | .error .noFindNulls => false | _ => true)) ∧
